@@ -735,6 +735,7 @@ qb_loop_signal_del(qb_loop_t * lp, qb_loop_signal_handle handle)
 	struct qb_loop_sig *sig_clone;
 	struct qb_loop *l = lp;
 	struct qb_loop_item *item;
+	struct qb_loop_item *next;
 
 	if (l == NULL) {
 		l = qb_loop_default_get();
@@ -744,7 +745,11 @@ qb_loop_signal_del(qb_loop_t * lp, qb_loop_signal_handle handle)
 	}
 	s = (struct qb_signal_source *)l->signal_source;
 
-	qb_list_for_each_entry(item, &l->level[sig->p].wait_head, list) {
+	/*
+	 * every delivery of the signal that is still waiting to be
+	 * dispatched has its own clone, get rid of all of them
+	 */
+	qb_list_for_each_entry_safe(item, next, &l->level[sig->p].wait_head, list) {
 		if (item->type != QB_LOOP_SIG) {
 			continue;
 		}
@@ -753,11 +758,10 @@ qb_loop_signal_del(qb_loop_t * lp, qb_loop_signal_handle handle)
 			qb_util_log(LOG_TRACE, "deleting sig in WAITLIST");
 			qb_list_del(&sig_clone->item.list);
 			free(sig_clone);
-			break;
 		}
 	}
 
-	qb_list_for_each_entry(item, &l->level[sig->p].job_head, list) {
+	qb_list_for_each_entry_safe(item, next, &l->level[sig->p].job_head, list) {
 		if (item->type != QB_LOOP_SIG) {
 			continue;
 		}
@@ -765,7 +769,7 @@ qb_loop_signal_del(qb_loop_t * lp, qb_loop_signal_handle handle)
 		if (sig_clone->cloned_from == sig) {
 			qb_loop_level_item_del(&l->level[sig->p], item);
 			qb_util_log(LOG_TRACE, "deleting sig in JOBLIST");
-			break;
+			free(sig_clone);
 		}
 	}
 
